@@ -28,6 +28,7 @@ type Obligation struct {
 	Trace  []string
 	Cover  bool // vacuity check: expected sat
 	Result *Result
+	replay *replayInfo
 }
 
 type deferred struct {
@@ -109,6 +110,9 @@ type Exec struct {
 	cellCache map[*ssa.Alloc]bool
 	usedLemmas []string
 	usedContracts map[string]bool
+	replay  *replayInfo
+	curRets []Val
+	entrySt *State
 }
 
 const maxForks = 6000
@@ -129,6 +133,11 @@ func (x *Exec) emit(st *State, kind, label, goalText, goal string, props []strin
 	o := &Obligation{Name: name, Func: x.key, Kind: kind, Label: label, Props: props, Pos: x.P.pos(pos), Goal: goalText,
 		Decls: append([]string(nil), st.decls...), Facts: append([]string(nil), st.facts...), Neg: not(goal), Path: x.paths,
 		Trace: append([]string(nil), st.trace...)}
+	if x.replay != nil && (fr == nil || fr.parent == nil) {
+		ri := *x.replay
+		ri.rets = x.curRets
+		o.replay = &ri
+	}
 	x.obls = append(x.obls, o)
 }
 
